@@ -281,7 +281,7 @@ def run_case(case):
                 armed.remove(k)
                 label = sp.where_is(victim)
                 pending = sum(1 for c in out["calls"] if c.get("running"))
-                out["kills"].append({"pid": victim.pid, "where": label, "t": round(s_.now, 4), "during_call": out.get("cur"),
+                out["kills"].append({"pid": victim.pid, "where": label, "t": round(s_.now, 4), "stall": round(s_.stall_time, 4), "during_call": out.get("cur"),
                                      "kind": k["kind"]})
                 sp.kill_proc(victim, k.get("code", -9), label)
     s.hooks.append(hook)
@@ -296,7 +296,7 @@ def run_case(case):
         if alive:
             victim = alive[k["nth"] % len(alive)]
             label = sp.where_is(victim)
-            out["kills"].append({"pid": victim.pid, "where": label, "t": round(s.now, 4), "during_call": None, "kind": "idle"})
+            out["kills"].append({"pid": victim.pid, "where": label, "t": round(s.now, 4), "stall": round(s.stall_time, 4), "during_call": None, "kind": "idle"})
             sp.kill_proc(victim, k.get("code", -9), label)
         s.sleep(k["delay"])
 
@@ -313,7 +313,7 @@ def run_case(case):
             for k in case["kills"]:
                 if k["call"] == c and k["when"] == "during":
                     arm(k)
-            rec = {"c": c, "t0": s.now, "running": True}
+            rec = {"c": c, "t0": s.now, "stall0": s.stall_time, "running": True}
             out["calls"].append(rec); out["cur"] = c
             if call.get("n_jobs") and not case["managed"]:
                 p = Parallel(n_jobs=call["n_jobs"], backend="loky", batch_size=case["batch_size"], pre_dispatch=case.get("pre_dispatch", "2*n_jobs"))
@@ -325,7 +325,7 @@ def run_case(case):
                     out["pending"] = (rec, call, pg(delayed(work)(c, i, call["sizes"][i], call["dur"][i], b"a" * blobs[i]) for i in range(call["n"])))
                 except BaseException as e:  # noqa
                     rec["outcome"] = type(e).__name__ if isinstance(e, BrokenProcessPool) else "OTHER:" + type(e).__name__
-                    rec["running"] = False; rec["t1"] = s.now
+                    rec["running"] = False; rec["t1"] = s.now; rec["stall1"] = s.stall_time
                 out["cur"] = None
                 continue
             try:
@@ -339,7 +339,7 @@ def run_case(case):
                 rec["outcome"] = type(e).__name__
             except BaseException as e:  # noqa
                 rec["outcome"] = "OTHER:" + type(e).__name__; rec["err"] = repr(e)[:200]
-            rec["running"] = False; rec["t1"] = s.now; out["cur"] = None
+            rec["running"] = False; rec["t1"] = s.now; rec["stall1"] = s.stall_time; out["cur"] = None
             # kills still armed for this call and never triggered are dropped
             for k in list(armed):
                 armed.remove(k)
@@ -358,7 +358,7 @@ def run_case(case):
                     rec0["outcome"] = type(e).__name__
                 except BaseException as e:  # noqa
                     rec0["outcome"] = "OTHER:" + type(e).__name__; rec0["err"] = repr(e)[:200]
-                rec0["running"] = False; rec0["t1"] = s.now
+                rec0["running"] = False; rec0["t1"] = s.now; rec0["stall1"] = s.stall_time
                 del g0
         if case["managed"]:
             p.__exit__(None, None, None)
@@ -410,10 +410,12 @@ def run_case(case):
                         verdict = V("failure_without_fault", "call %d raised %s but no worker had been killed" % (c["c"], c["outcome"]))
                         break
                     kt = max(k["t"] for k in ks)
+                    # simulated seconds that the scheduler's novelty stalls added since then (an upper bound: all threads)
+                    stalled = c.get("stall1", 0.0) - max([k.get("stall", 0.0) for k in ks if k["t"] == kt] + [c.get("stall0", 0.0)])
                     tot = sum(case["calls"][c["c"]]["dur"])
                     if case.get("pending_generator") and c["c"] == 0:
                         continue            # its error is only looked at when the generator is drained, after the second call
-                    if c["t1"] - max(kt, c["t0"]) > 10.0 + tot:
+                    if c["t1"] - max(kt, c["t0"]) - max(0.0, stalled) > 10.0 + tot:
                         verdict = V("late_detection", "call %d: error %.2fs after the kill" % (c["c"], c["t1"] - kt), kill_point=kill_point)
                         break
         if verdict is None:
